@@ -41,6 +41,13 @@ FaultNames == { B("d"), B("d.gr"), B("e"), B("e.gr"), [i \in 1..253 |-> 97], [i 
 
 AllPinned == Pinned \cup Utf8Names \cup FaultNames
 
+\* ---- the single-byte dimension, complete: every one of the 256 byte values alone and first / in the middle / last in a
+\* short identifier-like name, each plain and with ".gr" appended (2 048 names).  San refuses every name holding a byte
+\* outside [A-Za-z0-9_]; NUL and '/' are also refused by the OS model, as before.
+ByteSweep == UNION { { <<b>>, <<b>> \o Gr, <<b, 97>>, <<b, 97>> \o Gr, <<97, b>>, <<97, b>> \o Gr, <<97, b, 98>>, <<97, b, 98>> \o Gr }
+                     : b \in 0..255 }
+NoSweep == {}
+
 \* pinned names of the history runs
 PinnedSmall == { B("a.gr.gr"), B("../a"), B("/a.gr"), B("a.b"), B("A_0") }
 
